@@ -146,14 +146,14 @@ def to_tail(stmts, budget=None):
 
 # ------------------------------------------------------------------------------------------ helpers
 class Helper:
-    def __init__(self, fn, cls=None):
-        self.fn, self.cls = fn, cls
+    def __init__(self, fn, cls=None, static=False):
+        self.fn, self.cls, self.static = fn, cls, static
         self.name = fn.name
         a = fn.args
         self.params = [x.arg for x in a.posonlyargs + a.args]
-        if cls is not None:
+        if cls is not None and not static:
             self.params = self.params[1:]
-        self.self_name = (a.posonlyargs + a.args)[0].arg if cls is not None else None
+        self.self_name = (a.posonlyargs + a.args)[0].arg if (cls is not None and not static) else None
         nd = len(a.defaults)
         allp = [x.arg for x in a.posonlyargs + a.args]
         self.defaults = dict(zip(allp[len(allp) - nd:], a.defaults)) if nd else {}
@@ -180,12 +180,15 @@ class Helper:
 
 
 def _candidate(fn, cls):
-    if fn.decorator_list or isinstance(fn, ast.AsyncFunctionDef):
+    static = False
+    if cls is not None and len(fn.decorator_list) == 1 and isinstance(fn.decorator_list[0], ast.Name) and fn.decorator_list[0].id == "staticmethod":
+        static = True
+    elif fn.decorator_list or isinstance(fn, ast.AsyncFunctionDef):
         return None
     a = fn.args
     if a.kwonlyargs or a.kwarg:
         return None
-    if cls is not None and not (a.posonlyargs + a.args):
+    if cls is not None and not static and not (a.posonlyargs + a.args):
         return None
     n_st = 0
     for n in ast.walk(fn):
@@ -204,7 +207,7 @@ def _candidate(fn, cls):
     if n_st > MAX_HELPER_STMTS:
         return None
     try:
-        h = Helper(fn, cls)
+        h = Helper(fn, cls, static)
     except _NoTail:
         return None
     if h.vararg:
@@ -265,6 +268,9 @@ class Inliner:
         if isinstance(f, ast.Attribute) and isinstance(f.value, ast.Name) and f.value.id == "self" and cls_name is not None \
                 and (cls_name, f.attr) in self.methods:
             return self.methods[(cls_name, f.attr)]
+        if isinstance(f, ast.Attribute) and isinstance(f.value, ast.Name) and (f.value.id, f.attr) in self.methods \
+                and self.methods[(f.value.id, f.attr)].static and f.value.id not in local_names:
+            return self.methods[(f.value.id, f.attr)]
         return None
 
     def _bind(self, h, call, pre):
@@ -294,6 +300,12 @@ class Inliner:
         self.counter += 1
         tag = f"_inl{self.counter}_"
         assigned_params = {p for p in h.params if p in h.locals}
+        if pre is None and any(not pure(a) for p, a in ordered):
+            if not self._expr_order_ok(h, [p for p, a in ordered if not pure(a)]):
+                return None
+            for p, a in ordered:
+                mapping[p] = a
+            ordered = []
         for p, a in ordered:
             if pure(a) and p not in assigned_params:
                 mapping[p] = a
@@ -321,6 +333,34 @@ class Inliner:
         if h.self_name and h.self_name != "self":
             mapping[h.self_name] = ast.Name(id="self", ctx=ast.Load())
         return _Subst(mapping, rename, h.vararg, vv)
+
+    def _expr_order_ok(self, h, impure_params):
+        if h.kind != "expr" or h.vararg:
+            return False
+        e = h.tail[0].value
+        seq = []  # evaluation order: ('use', param) / ('impure', node)
+
+        def visit(n):
+            if isinstance(n, (ast.Lambda, ast.ListComp, ast.SetComp, ast.DictComp, ast.GeneratorExp, ast.IfExp, ast.BoolOp)):
+                # conditional / deferred evaluation: a parameter inside might be evaluated zero or many times
+                if any(isinstance(x, ast.Name) and x.id in impure_params for x in ast.walk(n)):
+                    seq.append(("bad", n))
+                return
+            for ch in ast.iter_child_nodes(n):
+                visit(ch)
+            if isinstance(n, ast.Name) and n.id in impure_params:
+                seq.append(("use", n.id))
+            elif isinstance(n, ast.Call) and not pure(n):
+                seq.append(("impure", n))
+
+        visit(e)
+        if any(k == "bad" for k, _ in seq):
+            return False
+        uses = [v for k, v in seq if k == "use"]
+        if uses != list(impure_params):
+            return False
+        last = max(i for i, (k, v) in enumerate(seq) if k == "use")
+        return not any(k == "impure" for k, v in seq[:last])
 
     # -- expression helpers anywhere
     def _inline_exprs(self, node, cls_name, local_names):
@@ -355,6 +395,13 @@ class Inliner:
             if isinstance(n, (ast.Lambda, ast.ListComp, ast.SetComp, ast.DictComp, ast.GeneratorExp)):
                 order.append(("opaque", n))
                 return
+            if isinstance(n, ast.Call):
+                h_ = self._target(n, cls_name, local_names)
+                if h_ is not None and h_.kind in ("straight", "tail"):
+                    # its own arguments are evaluated first, in order: _bind() keeps that order (temporaries for impure ones)
+                    visit(n.func)
+                    order.append(("call", n))
+                    return
             for ch in ast.iter_child_nodes(n):
                 visit(ch)
             if isinstance(n, ast.Call):
@@ -432,6 +479,33 @@ class Inliner:
         self.count += 1
         return out
 
+    def _hoist(self, st, cls_name, local_names):
+        """a branching helper called inside a larger expression of a simple statement, or in the header of an `if` / `for`
+        (evaluated once, before the statement's body): `T = h(..)` is put in front and T used in its place, provided everything
+        evaluated before the call in that expression is pure.  -> [T = h(..), rewritten statement] or None"""
+        if isinstance(st, (ast.Assign, ast.AnnAssign, ast.AugAssign, ast.Expr, ast.Return)):
+            probe = st
+        elif isinstance(st, ast.If):
+            probe = ast.Expr(value=st.test)
+        elif isinstance(st, ast.For):
+            probe = ast.Expr(value=st.iter)
+        else:
+            return None
+        fc = self._first_call(probe, cls_name, local_names)
+        if fc is None:
+            return None
+        call, h = fc
+        if getattr(probe, "value", None) is call and probe is st:
+            return None  # whole value: _expand's business
+        if h.free & local_names:
+            return None
+        self.counter += 1
+        tmp = f"_inl{self.counter}_r"
+        asg = ast.copy_location(ast.Assign(targets=[ast.Name(id=tmp, ctx=ast.Store())], value=call), st)
+        new_st = _replace_node(st, call, ast.copy_location(ast.Name(id=tmp, ctx=ast.Load()), call))
+        ast.fix_missing_locations(asg)
+        return [asg, new_st]
+
     def run_body(self, stmts, cls_name, local_names, depth=0):
         out = []
         for st in stmts:
@@ -444,6 +518,8 @@ class Inliner:
                 out.append(st)
                 continue
             rep = self._expand(st, cls_name, local_names) if depth < 4 else None
+            if rep is None and depth < 4:
+                rep = self._hoist(st, cls_name, local_names)
             if rep is not None:
                 # the expansion may contain further helper calls
                 out.extend(self.run_body(rep, cls_name, local_names, depth + 1))
@@ -551,7 +627,7 @@ def _plain_names(stmts, local_names, h):
             nm = n.id if isinstance(n, ast.Name) else (n.name if isinstance(n, ast.ExceptHandler) and n.name else None)
             if nm:
                 m = re.match(r"^_inl\d+_(.+)$", nm)
-                if m:
+                if m and m.group(1) != "r":  # `_inlN_r` is a hoisted result referenced outside the expansion
                     found[nm] = m.group(1)
     ren = {}
     for tmp, plain in sorted(found.items()):
